@@ -291,12 +291,26 @@ report_s(const char *kind, const char *shape, const char *fmt, ...)
 	char key[256], cas[256], det[1024], es[4 * MAXLEN + 8], rd[256];
 	size_t k = 0;
 	va_list ap;
+	const char *rk = "full";
 
+	/* reads=full: every read() of the run so far returned the whole chunk (or all
+	 * that was left): what a file or a fast pipe gives; reads=short: not so */
+	{
+		int pos = 0;
+		for (int i = 0; i < R.d && i < MAXD; i++) {
+			int rest = S.len - pos;
+			if (R.served[i] < (rest < TC ? rest : TC)) {
+				rk = "short";
+			}
+			pos += R.served[i];
+		}
+	}
 	if (shape) {
+		/* kinds with their own shape coordinates (the composition plays no part in them) */
 		snprintf(key, sizeof(key), "reader %d/%d/%d %s | %s", TN, TW, TC, kind, shape);
 	} else {
-		snprintf(key, sizeof(key), "reader %d/%d/%d %s | end=%s limit-hits=%s", TN, TW, TC, kind,
-			 S.len == 0 ? "empty" : S.ends_nl ? "nl" : "no-nl", R.limit_hits == 0 ? "0" : "1+");
+		snprintf(key, sizeof(key), "reader %d/%d/%d %s | end=%s limit-hits=%s reads=%s", TN, TW, TC, kind,
+			 S.len == 0 ? "empty" : S.ends_nl ? "nl" : "no-nl", R.limit_hits == 0 ? "0" : "1+", rk);
 	}
 	/* case: stream letters, then the read() answers of this run */
 	for (int i = 0; i < S.len; i++) {
@@ -537,6 +551,13 @@ run_once(void)
 					path_abort();
 				}
 				judge_line(line, llen);
+				/* the tools' parsers (dt_io_find_strpdt2) run on to a NUL */
+				if (line + llen < win + TW && line[llen] != '\0') {
+					char sh2[64];
+					snprintf(sh2, sizeof(sh2), "fill=%s", R.nfill == 1 ? "first" : "later");
+					report_s("line not NUL-terminated", sh2, "line #%d is followed by byte 0x%02x instead of NUL (the tools' parsers read on past the line)",
+						 R.delivered, (unsigned char)line[llen]);
+				}
 				/* the tools' copy-through: line[llen] = '\n' (dconv.c proc_line) */
 				if (line + llen == win + TW) {
 					report("newline-store behind the window", "the unterminated line ends at the end of the window; the tools' line[llen] = '\\n' stores behind it");
@@ -637,36 +658,64 @@ explore_stream(void)
 #define SW	(16384L * 1024L)
 #define SC	4096
 
-/* the stock-size image of a tiny stream.  Both constant sets satisfy window =
- * lines x LLEN, so the shape is scaled uniformly: tiny line i becomes the stock
- * lines [i*SN/TN, (i+1)*SN/TN), each with the content of line i in which every
- * run of x is stretched by 1024/LLEN (an empty line stays empty, a \r stays one
- * \r); the unterminated rest stays one unterminated line, stretched likewise.
- * N tiny lines thus become 16384 stock lines and W tiny bytes of x become
- * 16 MiB.  If EXACT, the rest is padded with x so that the whole image has
- * exactly the size of the stock window (the shape "the data end exactly at the
- * end of the window").  Writes the image to F, a perl one-liner that prints it
- * to PL; returns the size. */
-static long
-transfer_stream(FILE *f, char *pl, size_t plsz, int exact)
+struct img {
+	char *d;
+	size_t len, cap;
+	char pl[3072];		/* perl expression that yields the image */
+	size_t plk;
+};
+
+static void
+img_put(struct img *m, const char *p, size_t n, long reps)
 {
-	long total = 0;
-	size_t k = 0;
+	if (m->len + n * (size_t)reps + 1 > m->cap) {
+		m->cap = (m->len + n * (size_t)reps + 1) * 2;
+		m->d = realloc(m->d, m->cap);
+	}
+	for (long r = 0; r < reps; r++) {
+		memcpy(m->d + m->len, p, n);
+		m->len += n;
+	}
+}
+
+static void
+img_pl(struct img *m, const char *fmt, ...)
+{
+	va_list ap;
+	va_start(ap, fmt);
+	if (m->plk < sizeof(m->pl) - 1) {
+		m->plk += (size_t)vsnprintf(m->pl + m->plk, sizeof(m->pl) - m->plk, fmt, ap);
+		if (m->plk >= sizeof(m->pl)) {
+			m->plk = sizeof(m->pl) - 1;
+		}
+	}
+	va_end(ap);
+}
+
+/* SHAPE scaling (line structure): both constant sets satisfy window = lines x
+ * LLEN, so tiny line i becomes the stock lines [i*SN/TN, (i+1)*SN/TN), each
+ * with the content of line i in which every run of x is stretched by 1024/LLEN
+ * (an empty line stays empty, a \r stays one \r); the unterminated rest stays
+ * one unterminated line.  N tiny lines become 16384 stock lines.
+ * map[p] = stock offset of tiny offset p (inside a line: in its last copy). */
+static void
+image_shape(struct img *m, long map[])
+{
 	int nterm = S.nexp - (S.len && !S.ends_nl ? 1 : 0);
 	const long xs = 1024 / VERIF_PRCHUNK_LLEN;
 	char *lb = malloc((size_t)(MAXLEN * xs + 2));
-	long nlines = 0;
 
-	k += (size_t)snprintf(pl + k, plsz - k, "perl -e 'print(");
 	for (int i = 0; i < S.nexp; i++) {
 		const char *e = S.in + S.exp_off[i];
 		int elen = S.exp_len[i];
 		long reps = i < nterm ? ((long)(i + 1) * SN / TN - (long)i * SN / TN) : 1;
 		size_t n = 0;
 		int run = 0;
+		long col[MAXLEN + 2];
 
-		k += (size_t)snprintf(pl + k, plsz - k, "%s(", i ? ", " : "");
+		img_pl(m, "%s(", i ? ", " : "");
 		for (int j = 0; j <= elen; j++) {
+			col[j] = (long)n + run * xs;
 			if (j < elen && e[j] == 'x') {
 				run++;
 				continue;
@@ -674,53 +723,106 @@ transfer_stream(FILE *f, char *pl, size_t plsz, int exact)
 			if (run) {
 				memset(lb + n, 'x', (size_t)(run * xs));
 				n += (size_t)(run * xs);
-				k += (size_t)snprintf(pl + k, plsz - k, "\"x\"x%ld . ", run * xs);
+				img_pl(m, "\"x\"x%ld . ", run * xs);
 				run = 0;
 			}
 			if (j < elen) {
 				lb[n++] = e[j];
-				k += (size_t)snprintf(pl + k, plsz - k, "\"\\%c\" . ", e[j] == '\n' ? 'n' : 'r');
+				img_pl(m, "\"\\r\" . ");
 			}
 		}
 		if (i < nterm) {
 			lb[n++] = '\n';
-			k += (size_t)snprintf(pl + k, plsz - k, "\"\\n\")x%ld", reps);
-			nlines += reps;
+			img_pl(m, "\"\\n\")x%ld", reps);
 		} else {
-			if (exact && total + (long)n < SW && nlines < SN) {
-				long pad = SW - total - (long)n;
-				char *big = malloc((size_t)pad);
-				memset(big, 'x', (size_t)pad);
-				fwrite(big, 1, (size_t)pad, f);
-				free(big);
-				total += pad;
-				k += (size_t)snprintf(pl + k, plsz - k, "\"x\"x%ld . ", pad);
-			}
-			k += (size_t)snprintf(pl + k, plsz - k, "\"\")");
+			img_pl(m, "\"\")");
 		}
-		for (long r = 0; r < reps; r++) {
-			fwrite(lb, 1, n, f);
+		map[S.exp_off[i]] = (long)m->len;
+		for (int j = 1; j <= elen; j++) {
+			map[S.exp_off[i] + j] = (long)m->len + (reps - 1) * (long)n + col[j];
 		}
-		total += (long)n * reps;
+		img_put(m, lb, n, reps);
 	}
-	snprintf(pl + k, plsz - k, ")'");
+	map[S.len] = (long)m->len;
 	free(lb);
-	return total;
 }
 
-/* run the stock dconv -S of the same build on the stock-size image; compare with
- * the image (a \r before \n may be dropped).  Returns 0 agree, 1 differs, -1 no run. */
+/* BYTES scaling (byte geometry, for the window seam): tiny offset p becomes
+ * stock offset p*16MiB/window, the region of tiny line i is cut into the stock
+ * lines [i*SN/TN, (i+1)*SN/TN) of equal length, filled with x (a \r before the
+ * \n is kept).  W tiny bytes become exactly 16 MiB, N tiny lines 16384 lines.
+ * A tiny offset that is not a multiple of the chunk keeps its misalignment:
+ * map[p] = f(p - p%chunk) + p%chunk. */
+static void
+image_bytes(struct img *m, long map[])
+{
+	int nterm = S.nexp - (S.len && !S.ends_nl ? 1 : 0);
+	char *lb;
+#define FPOS(p)	((long)(((__int128)(p) * SW) / TW))
+
+	for (int i = 0; i < S.nexp; i++) {
+		int a = S.exp_off[i];
+		int elen = S.exp_len[i];
+		long reps = i < nterm ? ((long)(i + 1) * SN / TN - (long)i * SN / TN) : 1;
+		long R = FPOS(i < nterm ? a + elen + 1 : a + elen) - FPOS(a);
+		long q = R / reps, rem = R % reps;
+		int cr = i < nterm && elen && S.in[a + elen - 1] == '\r';
+
+		lb = malloc((size_t)q + 2);
+		memset(lb, 'x', (size_t)q + 1);
+		img_pl(m, "%s", i ? ", " : "");
+		for (int pass = 0; pass < 2; pass++) {
+			/* the first REM lines are one byte longer */
+			long ll = pass == 0 ? q + 1 : q, cnt = pass == 0 ? rem : reps - rem;
+			if (cnt == 0) {
+				continue;
+			}
+			if (i < nterm) {
+				lb[ll - 1] = '\n';
+				if (cr && ll >= 2) {
+					lb[ll - 2] = '\r';
+				}
+				img_pl(m, "%s(\"x\"x%ld . \"%s\\n\")x%ld", pass && rem ? ", " : "", ll - 1 - (cr && ll >= 2), cr && ll >= 2 ? "\\r" : "", cnt);
+			} else {
+				img_pl(m, "%s(\"x\"x%ld)x%ld", pass && rem ? ", " : "", ll, cnt);
+			}
+			img_put(m, lb, (size_t)ll, cnt);
+			lb[ll - 1] = 'x';
+			if (ll >= 2) {
+				lb[ll - 2] = 'x';
+			}
+		}
+		free(lb);
+	}
+	for (int p = 0; p <= S.len; p++) {
+		map[p] = FPOS(p - p % TC) + p % TC;
+		if (map[p] > (long)m->len) {
+			map[p] = (long)m->len;
+		}
+	}
+}
+
+#include "c18_feed.h"
+
+/* scale the case (stream S, read() answers ANS[0..NANS)) to the stock constants and
+ * run the stock dconv -S of the same build on it through a pipe; read()
+ * boundaries of the tiny run that are not chunk aligned become piece
+ * boundaries.  Returns 0 agree, 1 differs, -1 no run. */
 static int
-transfer_case(const char *key, char *verdict, size_t vsz, char *cmd, size_t csz)
+transfer_case(const char *key, const int *ans, int nans, char *verdict, size_t vsz, char *cmd, size_t csz)
 {
 	const char *rundir = getenv("VERIF_RUNDIR");
-	char fin[512], fout[512], sh[1536], run[2048];
-	FILE *f;
-	long total;
-	int st;
-	struct stat sb;
+	char fout[512], exe[1024], cuttxt[512];
+	struct img m;
+	long map[MAXLEN + 2];
+	size_t cuts[MAXD];
+	int ncuts = 0;
+	struct feed_res fr;
+	long at, osz;
+	int differs;
 	int memkind = strstr(key, " oob-") != NULL;
-	int exact = strstr(key, "newline-store behind the window") != NULL;
+	int bytes = strstr(key, "newline-store behind the window") != NULL || strstr(key, "window-overrun") != NULL;
+	const char *argv[4];
 
 	if (rundir == NULL) {
 		rundir = "/tmp";
@@ -729,85 +831,178 @@ transfer_case(const char *key, char *verdict, size_t vsz, char *cmd, size_t csz)
 		snprintf(verdict, vsz, "not transferred (no --tree)");
 		return -1;
 	}
-	snprintf(fin, sizeof(fin), "%s/c18tr.%d.%d.in", rundir, (int)getpid(), TN * 100 + TC);
+	memset(&m, 0, sizeof(m));
+	if (bytes) {
+		image_bytes(&m, map);
+	} else {
+		image_shape(&m, map);
+	}
+	if (m.d == NULL) {
+		m.d = malloc(1);
+	}
+	/* piece boundaries: where the tiny run had a short read */
+	cuttxt[0] = '\0';
+	{
+		int pos = 0, shortseen = 0;
+		for (int i = 0; i < nans; i++) {
+			int rest = S.len - pos;
+			int full = rest < TC ? rest : TC;
+			if (ans[i] <= 0) {
+				break;
+			}
+			if (ans[i] < full) {
+				shortseen = 1;
+			}
+			pos += ans[i];
+			if (shortseen && pos < S.len && map[pos] > 0 && (size_t)map[pos] < m.len &&
+			    (ncuts == 0 || cuts[ncuts - 1] < (size_t)map[pos])) {
+				cuts[ncuts++] = (size_t)map[pos];
+				snprintf(cuttxt + strlen(cuttxt), sizeof(cuttxt) - strlen(cuttxt), "%s%ld", cuttxt[0] ? "," : "", map[pos]);
+			}
+		}
+		if (!shortseen) {
+			ncuts = 0;
+			cuttxt[0] = '\0';
+		}
+	}
 	snprintf(fout, sizeof(fout), "%s/c18tr.%d.%d.out", rundir, (int)getpid(), TN * 100 + TC);
-	if ((f = fopen(fin, "w")) == NULL) {
-		snprintf(verdict, vsz, "not transferred (cannot write %s)", fin);
+	snprintf(exe, sizeof(exe), "%s/src/dconv", ex.tree);
+	argv[0] = exe;
+	argv[1] = "-S";
+	argv[2] = NULL;
+	if (ncuts) {
+		snprintf(cmd, csz, "perl -e '$|=1; $d=join(\"\",%s); $o=0; for $c (%s,length $d) { print substr($d,$o,$c-$o); $o=$c; select(undef,undef,undef,0.5) }' "
+			 "| dconv -S | cmp - <(perl -e 'print(%s)')", m.pl, cuttxt, m.pl);
+	} else {
+		snprintf(cmd, csz, "perl -e 'print(%s)' | dconv -S | cmp - <(perl -e 'print(%s)')", m.pl, m.pl);
+	}
+	++*c_transfer;
+	if (feed_run(argv, m.d, m.len, cuts, ncuts, fout, 60, &fr) < 0) {
+		snprintf(verdict, vsz, "not transferred (cannot run %s)", exe);
+		free(m.d);
 		return -1;
 	}
-	total = transfer_stream(f, sh, sizeof(sh), exact);
-	fclose(f);
-	snprintf(cmd, csz, "%s | dconv -S | cmp - <(%s)", sh, sh);
-	snprintf(run, sizeof(run), "'%s/src/dconv' -S < '%s' > '%s' 2>/dev/null", ex.tree, fin, fout);
-	++*c_transfer;
-	st = system(run);
-	/* compare: output must equal input plus a final newline if that was missing; \r\n may become \n */
+	differs = feed_cmp_passthrough(m.d, m.len, fout, &at, &osz);
+	unlink(fout);
 	{
-		FILE *a = fopen(fin, "r"), *b = fopen(fout, "r");
-		long la = 0, nlines_in = 0;
-		int differ = 0;
-		int ca, cb;
-		long firstdiff = -1;
-
-		if (a == NULL || b == NULL) {
-			snprintf(verdict, vsz, "not transferred (no output file)");
-			return -1;
+		char how[1024];
+		long line = 1;
+		for (long i = 0; i < at && (size_t)i < m.len; i++) {
+			line += m.d[i] == '\n';
 		}
-		stat(fout, &sb);
-		ca = fgetc(a);
-		cb = fgetc(b);
-		while (ca != EOF || cb != EOF) {
-			if (ca == '\r' && cb == '\n') {
-				/* CRLF handling: the \r may be dropped */
-				int nx = fgetc(a);
-				if (nx == '\n' || nx == EOF) {
-					ca = '\n';
-					la++;
-					if (nx == EOF) {
-						ungetc('\n', b);
-						cb = '\n';
-						ca = EOF;
-					}
-				} else {
-					ungetc(nx, a);
-				}
-			}
-			if (ca == EOF && cb == '\n' && !S.ends_nl) {
-				/* the missing final newline was supplied */
-				if (fgetc(b) != EOF) {
-					differ = 1;
-					firstdiff = la;
-				}
-				break;
-			}
-			if (ca != cb) {
-				differ = 1;
-				firstdiff = la;
-				break;
-			}
-			nlines_in += ca == '\n';
-			la++;
-			ca = fgetc(a);
-			cb = fgetc(b);
+		snprintf(how, sizeof(how), "scaled (%s) to the stock constants: %zu bytes%s%s%s", bytes ? "byte geometry x 16MiB/window" : "line structure x 16384/lines, x-runs x 1024/LLEN",
+			 m.len, ncuts ? ", delivered through a pipe in pieces ending at offsets " : ", delivered in full 4096-byte reads", cuttxt, ncuts ? " (a short read each)" : "");
+		if (fr.signaled || (fr.exited && fr.status >= 126)) {
+			snprintf(verdict, vsz, "TRANSFERS: %s: the stock dconv -S was %s after %ld output bytes", how, feed_ending(&fr), osz);
+			differs = 1;
+		} else if (differs) {
+			snprintf(verdict, vsz, "TRANSFERS: %s: the stock dconv -S (%s) printed %ld bytes, departing from the input at byte %ld (line %ld)",
+				 how, feed_ending(&fr), osz, at, line);
+		} else {
+			snprintf(verdict, vsz, "%s: the stock dconv -S prints output = input%s", how,
+				 memkind ? " (an out-of-bounds read of this kind does not show in the output: in the stock layout the byte before the window belongs to the neighbouring mapping)"
+				 : ": does NOT show at the stock constants as scaled");
 		}
-		fclose(a);
-		fclose(b);
-		unlink(fin);
-		unlink(fout);
-		if (WIFSIGNALED(st) || (WIFEXITED(st) && WEXITSTATUS(st) >= 128)) {
-			snprintf(verdict, vsz, "TRANSFERS to the stock constants: on the scaled input of %ld bytes the stock dconv -S ended with %s %d after %ld output bytes",
-				 total, WIFSIGNALED(st) ? "signal" : "status", WIFSIGNALED(st) ? WTERMSIG(st) : WEXITSTATUS(st) - 128, (long)sb.st_size);
-			return 1;
-		}
-		if (differ) {
-			snprintf(verdict, vsz, "TRANSFERS to the stock constants: on the scaled input of %ld bytes the stock dconv -S (exit %d) printed %ld bytes, departing from the input at byte %ld (line %ld)",
-				 total, WIFEXITED(st) ? WEXITSTATUS(st) : -1, (long)sb.st_size, firstdiff, nlines_in + 1);
-			return 1;
-		}
-		snprintf(verdict, vsz, "on the scaled input of %ld bytes (read in full 4096-byte chunks) the stock dconv -S prints output = input%s",
-			 total, memkind ? " (an out-of-bounds access of this kind does not show in the output: at the stock layout the byte before the window belongs to the neighbouring mapping)" : ": does NOT transfer as scaled");
-		return 0;
 	}
+	free(m.d);
+	return differs;
+}
+
+static int
+parse_case(const char *cas, int ans[], int *nans)
+{
+	char s[MAXLEN + 1];
+	int len = 0;
+	const char *p = cas;
+
+	for (; *p && *p != ' ' && len < MAXLEN; p++) {
+		if (*p == '-') {
+			continue;
+		}
+		s[len++] = *p == 'x' ? 'x' : *p == 'n' ? '\n' : '\r';
+	}
+	set_stream(s, len);
+	*nans = 0;
+	while (*p) {
+		char *ep;
+		long v = strtol(p, &ep, 10);
+		if (ep == p) {
+			break;
+		}
+		if (*nans < MAXD) {
+			ans[(*nans)++] = (int)v;
+		}
+		p = ep;
+	}
+	return len;
+}
+
+/* One transfer per class and run, not one per worker: every worker publishes
+ * (ord, key) of its classes in the run directory, waits for the others, and
+ * transfers only the classes of which it holds the smallest example (smallest
+ * ord, then lowest worker: the record the driver keeps when it merges). */
+static int
+owner_p(const char *key, double ord)
+{
+	const char *rundir = getenv("VERIF_RUNDIR");
+	static char *tab[64];
+	static int loaded;
+	char fn[512], line[512];
+
+	if (rundir == NULL || ex.nworkers <= 1 || ex.nworkers > 64) {
+		return 1;
+	}
+	if (!loaded) {
+		FILE *f;
+		double t0 = ex_now();
+		snprintf(fn, sizeof(fn), "%s/c18cls.%d.%d.%d.tmp", rundir, TN, TC, ex.worker);
+		if ((f = fopen(fn, "w")) == NULL) {
+			return 1;
+		}
+		for (int i = 0; i < ex.nviol; i++) {
+			fprintf(f, "%.17g\t%s\n", ex.viol[i].ord, ex.viol[i].key);
+		}
+		fclose(f);
+		snprintf(line, sizeof(line), "%s/c18cls.%d.%d.%d", rundir, TN, TC, ex.worker);
+		rename(fn, line);
+		for (int w = 0; w < ex.nworkers; w++) {
+			snprintf(fn, sizeof(fn), "%s/c18cls.%d.%d.%d", rundir, TN, TC, w);
+			while ((f = fopen(fn, "r")) == NULL) {
+				struct timespec ts = {0, 5000000};
+				if (ex_now() - t0 > 600) {
+					/* a worker went missing: everybody transfers its own */
+					return 1;
+				}
+				nanosleep(&ts, NULL);
+			}
+			{
+				size_t cap = 1 << 16, n;
+				tab[w] = malloc(cap);
+				n = fread(tab[w], 1, cap - 1, f);
+				tab[w][n] = '\0';
+			}
+			fclose(f);
+		}
+		loaded = 1;
+	}
+	for (int w = 0; w < ex.nworkers; w++) {
+		for (char *q = tab[w]; q && *q; ) {
+			char *nl = strchr(q, '\n'), *tb = strchr(q, '\t');
+			size_t kl;
+			if (nl == NULL || tb == NULL || tb > nl) {
+				break;
+			}
+			kl = (size_t)(nl - tb - 1);
+			if (kl == strlen(key) && !memcmp(tb + 1, key, kl)) {
+				double o = atof(q);
+				if (o < ord || (o == ord && w < ex.worker)) {
+					return 0;
+				}
+			}
+			q = nl + 1;
+		}
+	}
+	return 1;
 }
 
 static void
@@ -815,19 +1010,15 @@ transfer_all(void)
 {
 	for (int i = 0; i < ex.nviol; i++) {
 		struct ex_viol_s *v = ex.viol + i;
-		char s[MAXLEN + 1], verdict[1536], cmd[4096], *nd;
-		int len = 0;
-		const char *p = v->cas;
+		char verdict[2048], cmd[8192], *nd;
+		int ans[MAXD], nans;
 
-		for (; *p && *p != ' ' && len < MAXLEN; p++) {
-			if (*p == '-') {
-				continue;
-			}
-			s[len++] = *p == 'x' ? 'x' : *p == 'n' ? '\n' : '\r';
+		if (!owner_p(v->key, v->ord)) {
+			continue;
 		}
-		set_stream(s, len);
+		parse_case(v->cas, ans, &nans);
 		cmd[0] = '\0';
-		transfer_case(v->key, verdict, sizeof(verdict), cmd, sizeof(cmd));
+		transfer_case(v->key, ans, nans, verdict, sizeof(verdict), cmd, sizeof(cmd));
 		nd = malloc(strlen(v->detail) + strlen(verdict) + 16);
 		sprintf(nd, "%s || %s", v->detail, verdict);
 		free(v->detail);
@@ -866,36 +1057,15 @@ main(int argc, char *argv[])
 
 	if (ex.cas) {
 		/* "<letters> <answer> <answer> ..." */
-		char s[MAXLEN + 1];
-		int len = 0;
-		const char *p = ex.cas;
-		char verdict[1536], cmd[4096];
+		char verdict[2048], cmd[8192];
 		int done;
 
-		for (; *p && *p != ' ' && len < MAXLEN; p++) {
-			if (*p == '-') {
-				continue;
-			}
-			s[len++] = *p == 'x' ? 'x' : *p == 'n' ? '\n' : '\r';
-		}
-		set_stream(s, len);
+		parse_case(ex.cas, R.script, &R.nscript);
 		R.scripted = 1;
-		R.nscript = 0;
-		while (*p) {
-			char *ep;
-			long v = strtol(p, &ep, 10);
-			if (ep == p) {
-				break;
-			}
-			if (R.nscript < MAXD) {
-				R.script[R.nscript++] = (int)v;
-			}
-			p = ep;
-		}
 		replay_mode = 1;
 		done = run_once();
 		printf("  run %s; %d of %d lines delivered\n", done ? "complete" : "ended early", R.delivered, S.nexp);
-		transfer_case(replay_key, verdict, sizeof(verdict), cmd, sizeof(cmd));
+		transfer_case(replay_key, R.script, R.nscript, verdict, sizeof(verdict), cmd, sizeof(cmd));
 		printf("  transfer: %s\n  cmd: %s\n", verdict, cmd);
 		return ex_replay_result(replay_fails != 0, "%s", replay_fails ? replay_key : "no violation");
 	}
